@@ -327,6 +327,21 @@ func (s *session) QueryMachine() error {
 
 func (s *session) fetchAndWriteResults(statements string, parameters []*schema.NamedParam, resultColumnFormatCodes []int16, extQueryMode bool) error {
 	tag := commandTagFor(statements)
+	// A statement that failed inside a transaction block released the
+	// transaction: what follows, up to the end of the block, was meant
+	// to be part of it and must not run on its own (in autocommit).
+	if s.txStatus == bm.TxStatusFailed {
+		if tag != "COMMIT" && tag != "ROLLBACK" {
+			return pserr.ErrTxAborted
+		}
+		if s.tx != nil {
+			_ = s.tx.Cancel()
+			s.tx = nil
+		}
+		s.txStatus = bm.TxStatusIdle
+		_, err := s.writeMessage(bm.CommandComplete([]byte("ROLLBACK")))
+		return err
+	}
 	// Track explicit transaction state so the next ReadyForQuery message
 	// reports the correct transaction-status byte. Clients (pq, JDBC)
 	// gate commit/rollback handling on this byte; staying at 'I' after a
@@ -429,10 +444,12 @@ func (s *session) fetchAndWriteResults(statements string, parameters []*schema.N
 			continue
 		case sql.DataSource:
 			if err = s.query(st, parameters, resultColumnFormatCodes, extQueryMode); err != nil {
+				s.txBlockFailed()
 				return err
 			}
 		default:
 			if err = s.exec(st, parameters, resultColumnFormatCodes, extQueryMode); err != nil {
+				s.txBlockFailed()
 				return err
 			}
 		}
@@ -1177,6 +1194,14 @@ func (s *session) query(st sql.DataSource, parameters []*schema.NamedParam, resu
 		_, err := s.writeMessage(bm.DataRow(rowBatch, len(cols), resultColumnFormatCodes))
 		return err
 	})
+}
+
+// txBlockFailed records that a statement of an explicit transaction block
+// failed and took the transaction with it.
+func (s *session) txBlockFailed() {
+	if s.txStatus == bm.TxStatusInTx && (s.tx == nil || s.tx.Closed()) {
+		s.txStatus = bm.TxStatusFailed
+	}
 }
 
 func (s *session) exec(st sql.SQLStmt, namedParams []*schema.NamedParam, resultColumnFormatCodes []int16, skipRowDesc bool) error {
